@@ -301,6 +301,9 @@ func baseTrees() []fsmodel.Tree {
 	trees = append(trees, fsmodel.Tree{d("cur", 1), f("cur/app", 1, 9, 2), f("cur/conf", 2, 3, 3), d("v1", 4), f("v1/app", 3, 8, 5), f("v1/conf", 4, 4, 6), d("v1/sub", 7), d("cur/sub", 8), f("cur/sub/x", 5, 2, 9), f("v1/sub/x", 6, 2, 10)})
 	// names that look like the writer's own temporary names, next to entries that get replaced
 	trees = append(trees, fsmodel.Tree{f(".tmp.0", 11, 70, 1), f(".tmp.1", 12, 80, 2), f(".tmp.2", 13, 90, 3), f("a", 1, 5, 4), d("b", 5), f("b/.tmp.1", 14, 60, 6), f("b/c", 2, 7, 7)})
+	// entries named like the listing file of a metadata-only receive are ordinary entries in an ordinary transfer
+	trees = append(trees, fsmodel.Tree{f(".fsutil-metadata", 21, 30, 1), f("a", 1, 5, 2), d("sub", 3), f("sub/.fsutil-metadata", 22, 31, 4)},
+		fsmodel.Tree{d(".fsutil-metadata", 1), f(".fsutil-metadata/x", 23, 6, 2), f("b", 2, 4, 3)})
 	trees[3][0].HL = 1
 	for i := range trees {
 		trees[i].Sort()
